@@ -76,6 +76,49 @@ def block_contracts(state, cfg, doc):
     return {"sig": tok_sig(toks), "fail": fails}
 
 
+# ---------------------------------------------------------------------------- inline post-processing contracts at run time
+INLINE2_RULE_FUNCS = {"fragments_join": ("markdown_it.rules_inline.fragments_join.fragments_join", "contracts.fragjoin")}
+
+
+def _monitored_inline_md(state, cfg):
+    key = ("mimd", cfg)
+    if key in state:
+        return state[key]
+    md = U.make_md(cfg)
+    log = []
+    for rule in md.inline.ruler2.__rules__:
+        ent = INLINE2_RULE_FUNCS.get(rule.name)
+        if not ent:
+            continue
+        q, modname = ent
+        M = importlib.import_module(modname)
+        mon = Monitor(M.REGISTRY[q], M.SPECFUNS)
+        real = rule.fn
+
+        def wrapper(st, _mon=mon, _real=real, _q=q):
+            outcome, val, failed, pre_ok = _mon.call(_real, {"state": st})
+            for kind, label in failed:
+                log.append((_q, kind, label))
+            if outcome == "raised":
+                raise val
+            return val
+
+        rule.fn = wrapper
+    md.inline.ruler2.__cache__ = None
+    state[key] = (md, log)
+    return state[key]
+
+
+def inline_contracts(state, cfg, doc):
+    """requires/ensures of the inline post-processing contracts evaluated natively on every call made while parsing doc
+    (a failing `requires` means the contract assumes more than the callers establish)"""
+    md, log = _monitored_inline_md(state, cfg)
+    del log[:]
+    toks = md.parse(doc)
+    fails = [{"what": f"{q} {kind} {label}", "key": f"{q}/{kind}/{label}"} for q, kind, label in log]
+    return {"sig": tuple((t.type, tuple((c.type, c.level) for c in (t.children or []))) for t in toks), "fail": fails}
+
+
 # ---------------------------------------------------------------------------- C11: Ruler histories
 def _ruler_ref_filter(rules, chain):
     return [r.fn for r in rules if r.enabled and (chain == "" or chain in r.alt)]
